@@ -29,7 +29,8 @@ TRUSTED = ["Model/C01_Model.v is hand-written (pointer surgery abstracted to ide
            "harness/c01.py serialiser and token<->object map"]
 
 def translators(repo):
-    """No data is generated from the source for this property; this hook only keeps the two models in step:
+    """Regenerates coq/Gen/C01_Gen.v (API surface of the current class, see translators/c01_api.py) and keeps the
+    two models in step:
     coq/Model/C01_PModel.v (pointer level) must be exactly what translators/c01_pmodel.py derives from
     coq/Model/C01_Model.v (fail closed otherwise)."""
     import os
@@ -43,7 +44,9 @@ def translators(repo):
     if want != have:
         raise RuntimeError("coq/Model/C01_PModel.v is not the translation of coq/Model/C01_Model.v; "
                            "run harness/translators/c01_pmodel.py")
-    return {}
+    # (T): the public callables the current class defines + the dict mutators it fails to override
+    import c01_api
+    return {"C01_Gen": c01_api.generate(repo)}
 
 
 # tokens -> pairwise unequal hashable python objects with eval()-able reprs; token 0 is None
